@@ -213,35 +213,40 @@ def tagObject (pid cid : SArg) : PE Val := do
   storeRefs cfg o p c
   return .unit
 
+/-- the size test of `_verify_object_information` (1954-1955): an expected size
+    is given, is positive, and differs from the true size -/
+def sizeMismatch (expSize : IArg) (trueSize : Nat) : Bool :=
+  match expSize with
+  | .int i => decide (i > 0 ∧ i ≠ (trueSize : Int))
+  | _ => false
+
+/-- the digest a checksum is compared with: the pre-computed / supplied one when
+    the algorithm is a key of `digests`, otherwise the one computed on demand -/
+def digestFor (digests : List (Str × Str)) (onDemand : Str → Str) (a : Str) : Str :=
+  match lookupDigest digests a with
+  | some d => d
+  | none => onDemand a
+
+inductive Verdict | valid | badSize | badChecksum
+  deriving DecidableEq, Repr
+
 /-- the comparison part of `_verify_object_information` (1931-2014).
     `digests`: what was computed / supplied; `onDemand a`: the digest under `a`
     computed from the object when `a` is not a key of `digests`.
     Repaired behaviour: both paths compare against the lower-cased checksum. -/
-inductive Verdict | valid | badSize | badChecksum
-  deriving DecidableEq, Repr
-
 def verdict (digests : List (Str × Str)) (onDemand : Str → Str) (trueSize : Nat)
     (expSize : IArg) (checksum : Option Str) (csAlg : Option Str) : Verdict :=
-  let sizeBad : Bool := match expSize with
-    | .int i => decide (i > 0 ∧ i ≠ (trueSize : Int))
-    | _ => false
-  if sizeBad then .badSize else
+  if sizeMismatch expSize trueSize then .badSize else
   match checksum, csAlg with
   | some c, some a =>
-    let d := match lookupDigest digests a with
-      | some d => d
-      | none => onDemand a
-    if d ≠ lower c then .badChecksum else .valid
+    if digestFor digests onDemand a ≠ lower c then .badChecksum else .valid
   | _, _ => .valid
 
 /-- as found at the pinned commit (1987): the on-demand path compares without
     lower-casing. Only used to state the refutation in `Props/C06.lean`. -/
 def verdictAsFound (digests : List (Str × Str)) (onDemand : Str → Str) (trueSize : Nat)
     (expSize : IArg) (checksum : Option Str) (csAlg : Option Str) : Verdict :=
-  let sizeBad : Bool := match expSize with
-    | .int i => decide (i > 0 ∧ i ≠ (trueSize : Int))
-    | _ => false
-  if sizeBad then .badSize else
+  if sizeMismatch expSize trueSize then .badSize else
   match checksum, csAlg with
   | some c, some a =>
     match lookupDigest digests a with
@@ -349,10 +354,7 @@ def deleteIfInvalidObject (om : Option ObjMeta) (checksum csAlg : SArg) (expSize
   | some m =>
     let a' ← PE.ofExcept (cleanAlgorithm a)
     -- size first (1954-1969), then checksum (1970-2014)
-    let sizeBad := match expSize with
-      | .int i => decide (i > 0 ∧ i ≠ (m.size : Int))
-      | _ => false
-    if sizeBad then
+    if sizeMismatch expSize m.size then
       deleteObjectOnly m.cid
       throw Exc.nonMatchingObjSize
     let d ← match lookupDigest m.digests a' with
